@@ -50,6 +50,9 @@ type c11Scenario struct {
 	// Gate (direct mode): rollback mitigation is on (real polling against an in-process simulated cluster, streams played
 	// by the harness) and an event above what the cluster has persisted is parked in the gate when the first burst begins
 	Gate bool `json:"gate,omitempty"`
+	// SlowCb: the application's handler of that lifecycle callback takes SlowMs (it flushes, pauses, logs remotely ...)
+	SlowCb string `json:"slow_cb,omitempty"`
+	SlowMs int    `json:"slow_ms,omitempty"`
 }
 
 type c11NotifRec struct {
@@ -74,9 +77,10 @@ type c11Result struct {
 }
 
 type cbRecJ struct {
-	At   int64  `json:"at"`
-	Ns   int64  `json:"ns"`
-	Name string `json:"name"`
+	At    int64  `json:"at"`
+	Ns    int64  `json:"ns"`
+	Name  string `json:"name"`
+	Leave int64  `json:"leave"`
 }
 
 type c11OpenJ struct {
@@ -121,6 +125,9 @@ func c11Child(raw json.RawMessage) any {
 	}
 	fm := newFakeMeta()
 	hand := &fakeHandler{}
+	if sc.SlowCb != "" {
+		hand.slow = map[string]time.Duration{sc.SlowCb: time.Duration(sc.SlowMs) * time.Millisecond}
+	}
 	cons := &fakeConsumer{}
 	for v := 0; v < c11NumVb; v++ {
 		cl.setHigh(uint16(v), 1000)
@@ -431,7 +438,7 @@ func c11Child(raw json.RawMessage) any {
 	cl.mu.Unlock()
 	_ = final
 	for _, r := range hand.log {
-		res.Callbacks = append(res.Callbacks, cbRecJ{r.At, r.T.UnixNano(), r.Name})
+		res.Callbacks = append(res.Callbacks, cbRecJ{r.At, r.T.UnixNano(), r.Name, r.Leave})
 	}
 	for _, o := range cl.openLog() {
 		res.Opens = append(res.Opens, c11OpenJ{o.At, int(o.Vb), o.Off.SeqNo})
@@ -520,6 +527,12 @@ func c11Exec(sc c11Scenario) (detail string, discarded bool) {
 			return fmt.Sprintf("reopen callbacks not properly bracketed: %v", names(cbs)), false
 		}
 		cycles = append(cycles, c)
+		// bracketed also in time: within a cycle a callback is emitted after the one before it has returned
+		for _, pair := range [][2]*cbRecJ{{c.brs, c.bsstop}, {c.bsstop, c.asstop}, {c.asstop, c.ars}, {c.brs, c.ars}, {c.ars, c.bre}, {c.bre, c.bsstart}, {c.bsstart, c.asstart}, {c.asstart, c.are}} {
+			if a, b := pair[0], pair[1]; a != nil && b != nil && (a.Leave == 0 || a.Leave > b.At) {
+				return fmt.Sprintf("cycle %d: %s was emitted while the application's %s handler had not returned: the callbacks are not bracketed (%v)", len(cycles)-1, b.Name, a.Name, names(cbs)), false
+			}
+		}
 	}
 	// 2. bursts as they really happened: a notification belongs to the cycle whose reopen (BRE) had not started when it arrived
 	nb := 0
@@ -654,6 +667,10 @@ func c11Gen(rt *rapid.T) c11Scenario {
 	if sc.Mode == "bus" {
 		sc.DelayMs = 300
 	}
+	if k := rapid.IntRange(0, 2).Draw(rt, "slow"); k == 0 || (sc.Mode == "bus" && k == 1) {
+		sc.SlowCb = rapid.SampledFrom([]string{"BRS", "BSStop", "ASStop", "ARS", "ARS", "ARS", "BRE", "BSStart", "ASStart", "ARE"}).Draw(rt, "slowcb")
+		sc.SlowMs = rapid.IntRange(5, 30).Draw(rt, "slowms")
+	}
 	nb := rapid.IntRange(1, 3).Draw(rt, "nbursts")
 	val := func(n *c11Notif) {
 		n.Total = rapid.IntRange(1, 4).Draw(rt, "total")
@@ -772,7 +789,10 @@ func TestC11_Rebalance(t *testing.T) {
 		for s := range states {
 			labs = append(labs, "notif_"+s)
 		}
-		record("C11", scs[i], multi && len(states) >= 2, labs...)
+		if scs[i].SlowCb != "" {
+			labs = append(labs, "slow_handler", "slow_handler_"+scs[i].SlowCb+"_"+scs[i].Mode)
+		}
+		record("C11", scs[i], (multi && len(states) >= 2) || (scs[i].SlowCb != "" && scs[i].Mode == "bus"), labs...)
 	}
 }
 
